@@ -132,3 +132,15 @@ PROPS["C01"] = {
                    "thorough": {"checks": 1, "env": {"C01_BIG_BITS": 5}, "timeout": 3000}}],
     }],
 }
+
+PROPS["C02"] = {
+    "level": "exploration",
+    "assumptions": ["gram.RefIPv4Target (strict dotted decimal, /0..32) defines 'IPv4 target'",
+                    "for application scans 'no connection made' is established at option-parsing level (the scan range is refused before an engine exists)",
+                    "exclusion-file parsing itself is C18's TestC18Exclude"],
+    "units": [{
+        "pkg": "command",
+        "tests": [T("TestC02TargetStrings", {"checks": 500, "shards": 4}, {"checks": 6000, "shards": 16}),
+                  T("TestC02Exclusion", {"checks": 60, "shards": 4}, {"checks": 800, "shards": 16})],
+    }],
+}
